@@ -57,6 +57,8 @@ def cases(rng, tier):
         out.append({"kind": rng.choice(["scalar_left", "scalar_right"]), "a": a, "f": rng.choice(BIN + BIN_EXTRA), "c": rng.choice([0, 1, 2, 3]), "dta": rng.choice(gens.DTYPES),
                     "cform": rng.choice(["int8", "int64", "uint8", "float32", "float64", "uint64", "bool", "int16"])})     # (np.isscalar: typed numpy scalars, not 0-d arrays)
         out.append({"kind": "unary", "a": a, "f": rng.choice(UNARY), "dta": rng.choice(gens.DTYPES), "predecode": rng.random() < 0.5})
+        # sign-sensitive unary ufuncs over runs of +0.0 / -0.0 / infinities (equal values with different signs are different inputs)
+        out.append({"kind": "unary", "a": a, "f": rng.choice(["reciprocal", "signbit", "sign", "negative", "sqrt", "abs"]), "dta": rng.choice(["float64", "float32"]), "vm": rng.choice(["zeros", "zeros", "inf"])})
         out.append({"kind": rng.choice(["scalar_left", "scalar_right"]), "a": a, "f": rng.choice(BIN), "c": rng.randint(1, 3), "dta": rng.choice(["int64", "float64", "uint8"]), "predecode": True})
         for red in rng.sample(RED, 3):
             out.append({"kind": "reduce", "a": a, "f": red, "dta": rng.choice(gens.DTYPES)})
@@ -72,6 +74,10 @@ def cases(rng, tier):
         # runs of the result may hold equal values
         out.append({"kind": "reduce", "a": a, "f": rng.choice(["any", "all", "max", "sum", "np.any", "np.all"]), "dta": rng.choice(["int64", "uint8", "float64"]),
                     "derive": rng.choice(["gt", "ne", "le", "concat"]), "t": rng.choice([-1, 0, 1, 2, 3])})
+    # +0.0 and -0.0 (and the two infinities) in DIFFERENT runs, separated by another value, under sign-sensitive unary ufuncs
+    for a in ([0, 2, 1], [1, 2, 0], [0, 0, 2, 1, 1], [1, 2, 2, 0], [0, 2, 1, 2, 0], [1, 1, 2, 0, 0, 2, 1]):
+        for f in ("reciprocal", "signbit", "sign", "negative", "sqrt", "abs", "square"):
+            out.append({"kind": "unary", "a": a, "f": f, "dta": rng.choice(["float64", "float32"]), "vm": rng.choice(["zeros", "zeros", "inf"])})
     # LONG operands (lengths around 2**8 / 2**16, a few long runs whose boundaries differ between the operands)
     for L in ([257, 65537, 70001] if tier == "quick" else [255, 256, 257, 65535, 65536, 65537, 70001, 131073]):
         def longarr():
@@ -100,6 +106,9 @@ def cases(rng, tier):
         a = rlgen.array_random(rng, n)[:n]; a = (a + [0] * n)[:n]
         b = rlgen.array_random(rng, n)[:n]; b = (b + [1] * n)[:n]
         out.append({"kind": "arrays", "a": a, "b": b, "f": rng.choice(BIN), "dta": "int64", "dtb": "int64"})
+        if rng.random() < 0.4:
+            # the augmented-assignment form (x += y, x *= y, ...): afterwards x IS the result and y is untouched
+            out.append({"kind": "arrays", "a": a, "b": b, "f": rng.choice(["add", "subtract", "multiply", "bitwise_and", "bitwise_or", "bitwise_xor"]), "dta": "int64", "dtb": "int64", "iop": True})
         if rng.random() < 0.5:
             out.append({"kind": "arrays", "a": a, "b": b, "f": rng.choice(BIN), "dta": rng.choice(["int64", "int32", "uint32"]), "dtb": "int64", "split": True})
         if rng.random() < 0.15:
@@ -184,6 +193,18 @@ def _c(p):
     return np.array(v) if cf.endswith(":0d") else v
 
 
+def _asheld(a):
+    """the operand AS THE ENCODING HOLDS IT (the property speaks of the decoded operands): a run holds equal cells, so a cell that
+    compares equal to its left neighbour (-0.0 after +0.0) is held with the neighbour's bit pattern"""
+    if a.dtype.kind != "f" or len(a) < 2:
+        return a
+    out = a.copy()
+    for i in range(1, len(a)):
+        if a[i] == out[i - 1]:
+            out[i] = out[i - 1]
+    return out
+
+
 def _pvals(p, i):
     """the i-th piece of a concatenation: all pieces of one element type, or (pdts) each of its own -- later pieces then hold values
     the first type cannot (numpy promotes)"""
@@ -260,7 +281,17 @@ def run_impl(p):
                         xe, xv = x._events.copy(), np.asarray(x._values).copy()
                         if not np.array_equal(x.to_array(), dense.astype(p["dta"])):
                             raise AssertionError("harness: derived operand does not decode to the intended cells")
-                res = uf(x, y)
+                if p.get("iop"):
+                    import operator
+                    ye, yv = y._events.copy(), np.asarray(y._values).copy()
+                    res = getattr(operator, {"add": "iadd", "subtract": "isub", "multiply": "imul", "bitwise_and": "iand", "bitwise_or": "ior", "bitwise_xor": "ixor"}[p["f"]])(x, y)
+                    if not (np.array_equal(y._events, ye) and np.array_equal(np.asarray(y._values), yv) and np.array_equal(y.to_array(), _vals(p["b"], p["dtb"], p.get("vmb", True)))):
+                        raise AssertionError("the right operand of an augmented assignment changed")
+                    if len(res) != len(p["a"]) or int(res.size) != len(p["a"]):
+                        raise AssertionError("the result of an augmented assignment reports another length than its cells")
+                    x = RunLengthArray.from_array(_vals(p["a"], p["dta"], p.get("vm", True)))       # (x itself may legitimately be the result now)
+                else:
+                    res = uf(x, y)
                 if p.get("split"):
                     again = x.to_array()
                     if not np.array_equal(again, _vals(p["a"], p["dta"], p.get("vm", True))):
@@ -279,7 +310,7 @@ def oracle(p):
             warnings.simplefilter("ignore")
             if k == "concat":
                 return {"k": "obs", "decoded": canon(_z(np.concatenate([_pvals(p, i) for i in range(len(p["parts"]))]))), "canonical": canon(True)}
-            a = _vals(p["a"], p["dta"], p.get("vm", True))
+            a = _asheld(_vals(p["a"], p["dta"], p.get("vm", True)))
             if k == "sum":
                 return canon(int(a.sum()))
             if k == "reduce" and "derive" in p:
@@ -299,7 +330,7 @@ def oracle(p):
             elif k == "scalar_left":
                 res = uf(_c(p), a)
             else:
-                b = _vals(p["b"], p["dtb"], p.get("vmb", True))
+                b = _asheld(_vals(p["b"], p["dtb"], p.get("vmb", True)))
                 if len(a) != len(b):
                     return refuse()
                 res = uf(a, b)
@@ -314,7 +345,7 @@ def lean_request(p):
         return None
     if p.get("dta") != "int64" or p.get("dtb", "int64") != "int64":
         return None
-    if p.get("vm", True) is not True or p.get("vmb", True) is not True or p.get("cform"):
+    if p.get("vm", True) is not True or p.get("vmb", True) is not True or p.get("cform") or p.get("iop"):
         return None
     if k == "arrays" and p["f"] in BIN:
         return {"op": "RL.binop", "kind": "arrays", "a": p["a"], "b": p["b"], "f": p["f"]}
